@@ -9,7 +9,9 @@ from vlib.harness import CheckBase, Verdict
 
 COMMANDS = [["cat"], ["info", "#.*"], ["type", "--binary", "NAME"], ["dump", "NAME"], ["dump-sector", "0", "1", "2"],
             ["dump-sector", "0", "2", "17"], ["free"], ["space"], ["sector-map"], ["show-titles"], ["list", "NAME"],
-            ["--show-config", "cat"]]
+            ["--show-config", "cat"],
+            # the END of the image (what a reader that loses the tail of the compressed stream gets wrong)
+            ["dump-sector", "0", "LT", "LS"], ["type", "--binary", "LASTNAME"], ["dump-sector", "0", "LT", "LS"]]
 
 
 @st.composite
@@ -34,6 +36,7 @@ def case_st(draw):
          "extra": draw(st.sampled_from([None, None, b"AB\x04\x00data"])),
          "hcrc": draw(st.booleans()), "mtime": draw(st.sampled_from([0, 1, 0x7FFFFFFF])),
          "align": draw(st.sampled_from([None, None, [512, 0], [512, 1], [512, 511], [1024, 0], [1024, 1], [512, 100]])),
+         "align_last": draw(st.booleans()), "tail_bytes": draw(st.sampled_from([None, None, 1, 100, 300])),
          "tailcut": draw(st.sampled_from([0, 0, 0, 1, 255, 256, 257, 511, 512, 513, 768, 1023, 1024, 1025])), "sparse": sparse,
          # a second, tiny image in front of X (compressed whenever X is): per-image state must not leak between them
          "pair": draw(st.integers(0, 3)) == 0,
@@ -50,7 +53,8 @@ class C10(CheckBase):
             "to values around multiples of the 512/1024-byte decompression buffers; a quarter of them nearly empty so that "
             "the whole .gz fits one 512-byte read) compressed with Python zlib at "
             "levels 0-9, optional FNAME/FCOMMENT/FEXTRA/FHCRC/MTIME header fields, 1-3 gzip members whose ends are "
-            "optionally padded (FEXTRA) onto / next to multiples of the 512- and 1024-byte buffers.  Positive: "
+            "optionally padded (FEXTRA) onto / next to multiples of the 512- and 1024-byte buffers (the last member "
+            "optionally left unpadded and only 1-300 bytes long).  Positive: "
             "stdout and exit status of 2-4 commands on X.gz equal those on X (a quarter of the runs with a second, "
             "tiny image attached in front, compressed whenever X is).  Negative: every truncation point of "
             "the .gz (all when <= 2 KiB, else 100), single-bit flips, a raw image renamed .gz, an empty file, the same "
@@ -123,7 +127,19 @@ class C10(CheckBase):
             nm = ":0.%s.%s" % (chr(e["dir"]), e["name"].decode("latin-1"))
         except (IndexError, KeyError):
             pass
-        return [out if a == "OUT" else (nm if a == "NAME" else a) for a in cmd]
+        last = nm
+        try:
+            ents = disc.all_entries(case["image"]["surface"]["volumes"][0])
+            e = max(ents, key=lambda e_: e_["start"] * 256 + e_["length"])
+            last = ":0.%s.%s" % (chr(e["dir"]), e["name"].decode("latin-1"))
+        except (IndexError, KeyError, ValueError):
+            pass
+        ic = case["image"]
+        lt, ls = str(ic.get("tracks", 40) - 1), str(ic.get("spt", 10) - 1)
+        if ic.get("ext") == "mmb":
+            lt, ls = "79", "9"
+        sub = {"OUT": out, "NAME": nm, "LASTNAME": last, "LT": lt, "LS": ls}
+        return [sub.get(a, a) for a in cmd]
 
     def judge(self, ctx, case):
         v = Verdict()
@@ -142,7 +158,8 @@ class C10(CheckBase):
         ext = img_case["ext"]
         gzdata = containers.gz(data, level=case["level"], fname=case["fname"], mtime=case["mtime"],
                                members=case["members"], extra=case["extra"], comment=case["comment"], hcrc=case["hcrc"],
-                               align=tuple(case["align"]) if case.get("align") else None)
+                               align=tuple(case["align"]) if case.get("align") else None,
+                               align_last=case.get("align_last", True), tail_bytes=case.get("tail_bytes"))
         assert containers.gunzip_reference(gzdata) == data
         mode = case["mode"]
         cl = ["mode-" + mode, "ext-" + ext]
